@@ -166,7 +166,7 @@ pub fn run(ctx: &Ctx) -> (Report, Meta) {
     .floor("mass_storage_pairs", 100)
     .floor("jac_storage_pairs", 300)
     .floor("jac_source_pairs", 100);
-    let n = ctx.size(1_200, 40_000);
+    let n = ctx.size(6_000, 400_000);
     let rep = par_for(n, "C15", |i, rep| {
         let case_id = format!("case/{}", i);
         if !ctx.want(&case_id) {
